@@ -979,3 +979,105 @@ func typUnder(t types.Type) types.Type {
 	}
 	return t.Underlying()
 }
+
+// diffStates names the first difference between two states (debugging aid for non-converging loops).
+func diffStates(a, b *State) string {
+	if a.dead != b.dead {
+		return "dead"
+	}
+	for k, v := range a.vals {
+		if b.vals[k] != v {
+			return fmt.Sprintf("vals[%s]: %v -> %v", k.v.Name(), v, b.vals[k])
+		}
+	}
+	for k := range b.vals {
+		if _, ok := a.vals[k]; !ok {
+			return fmt.Sprintf("vals[%s] new", k.v.Name())
+		}
+	}
+	for k, v := range a.ints {
+		if b.ints[k] != v {
+			return fmt.Sprintf("ints[%s]: %v -> %v", k.v.Name(), v, b.ints[k])
+		}
+	}
+	for k := range b.ints {
+		if _, ok := a.ints[k]; !ok {
+			return fmt.Sprintf("ints[%s] new", k.v.Name())
+		}
+	}
+	for k, v := range a.mem {
+		if w, ok := b.mem[k]; !ok {
+			return fmt.Sprintf("mem[%v] gone", k)
+		} else if !w.same(v) {
+			return fmt.Sprintf("mem[%v]: %v -> %v", k, v, w)
+		}
+	}
+	for k := range b.mem {
+		if _, ok := a.mem[k]; !ok {
+			return fmt.Sprintf("mem[%v] new", k)
+		}
+	}
+	for k, v := range a.iv {
+		if w, ok := b.iv[k]; !ok {
+			return fmt.Sprintf("iv[%v] gone", k)
+		} else if w != v {
+			return fmt.Sprintf("iv[%v]: %v -> %v", k, v, w)
+		}
+	}
+	for k := range b.iv {
+		if _, ok := a.iv[k]; !ok {
+			return fmt.Sprintf("iv[%v] new", k)
+		}
+	}
+	for k, v := range a.epoch {
+		if b.epoch[k] != v {
+			return fmt.Sprintf("epoch[%s]: %s -> %s", k, v, b.epoch[k])
+		}
+	}
+	for k := range a.nn {
+		if !b.nn[k] {
+			return fmt.Sprintf("nn[%v] gone", k)
+		}
+	}
+	for k := range b.nn {
+		if !a.nn[k] {
+			return fmt.Sprintf("nn[%v] new", k)
+		}
+	}
+	for k := range a.isnil {
+		if !b.isnil[k] {
+			return fmt.Sprintf("isnil[%v] gone", k)
+		}
+	}
+	for k := range b.isnil {
+		if !a.isnil[k] {
+			return fmt.Sprintf("isnil[%v] new", k)
+		}
+	}
+	if len(a.dyn) != len(b.dyn) {
+		return "dyn size"
+	}
+	if len(a.guards) != len(b.guards) {
+		return fmt.Sprintf("guards %d -> %d", len(a.guards), len(b.guards))
+	}
+	if len(a.tuples) != len(b.tuples) {
+		return "tuples size"
+	}
+	for x, m := range a.ub {
+		for y, c := range m {
+			if c2, ok := b.ub[x][y]; !ok {
+				return fmt.Sprintf("ub[%v][%v] gone", x, y)
+			} else if c2 != c {
+				return fmt.Sprintf("ub[%v][%v]: %d -> %d", x, y, c, c2)
+			}
+		}
+	}
+	for x, m := range b.ub {
+		for y := range m {
+			if _, ok := a.ub[x][y]; !ok {
+				return fmt.Sprintf("ub[%v][%v] new", x, y)
+			}
+		}
+	}
+	return "?"
+}
